@@ -922,6 +922,20 @@ def r_register_found(cx):
                       "get_resource looks for the end of a register item as %r: a closing fence that is not followed by exactly "
                       "that (the last line of a file, a fence followed by blanks) is not seen and the item swallows what follows" % pat[2][1],
                       cx.where(f.term(ob_)["span"]))
+        # the tag is the opening fence itself: nothing is demanded in front of it (the first item of a file has no line
+        # break before its fence)
+        tagv = f.arg_terms(fb)[1]
+        if mir.strip_refs(tagv)[0] == "refplace":
+            tagv = f.local_value(mir.strip_refs(tagv)[2], f.end_point(fb))
+        lits = []
+        mir.walk(tagv, lambda y: (lits.append(str(y[2][1])) if y[0] == "const" and isinstance(y[2], tuple) and y[2][0] == "str" else None) or True)
+        fence = [x for x in lits if "```" in x]
+        if fence:
+            okf = all(x.startswith("```") for x in fence)
+            cx.ob("R-REGISTER-FOUND", "get_resource/tag-is-fence", okf,
+                  "the tag searched for starts with the opening fence" if okf else
+                  "get_resource searches for %r: an item whose fence is not preceded by exactly that (the first item of a register "
+                  "file) is not found" % fence[0], cx.where(f.term(fb)["span"]))
         cx.ob("R-REGISTER-FOUND", "get_resource/tag-found", not back,
               "once the tag of a register item has been found, get_resource returns the item" if not back else
               "get_resource can go on to the next search directory (and end in NotFound) after it has found the tag of the "
